@@ -202,3 +202,195 @@ def report(ck, prog, rule, funcs, where_label):
     if not lb and not md:
         ck.same(rule, where_label, f"{len(funcs)} functions: {n1} callables created in loops, {n2} mutable defaults",
                 "no deferred callable captures a loop variable; no mutable default is mutated", True, nontrivial=bool(n1 or n2))
+
+
+# ------------------------------------------------------------------------------------------------ overwrite_* options
+OVERWRITE_CONTROL = '''
+def _ctl(x, **kwargs):
+    if x.nbytes > 10:
+        kwargs.setdefault("overwrite_x", True)
+    a = f(x, overwrite_x=False)
+    y = x * 2
+    w = x.T
+    return g(x, **kwargs), h(x, overwrite_a=flag), h(x * 2, overwrite_x=True), h(y, overwrite_x=True), h(w, overwrite_x=True)
+'''
+
+
+def _params_of(fn):
+    a = fn.args
+    names = {x.arg for x in a.posonlyargs + a.args + a.kwonlyargs}
+    if a.vararg:
+        names.add(a.vararg.arg)
+    if a.kwarg:
+        names.add(a.kwarg.arg)
+    return names
+
+
+def _rooted_in_param(e, params):
+    """x, x.data, x[...], *args -- an expression that IS (part of) what the caller handed in; a product, a function result or a
+    local temporary is not."""
+    while isinstance(e, (ast.Attribute, ast.Subscript, ast.Starred)):
+        e = e.value
+    return isinstance(e, ast.Name) and e.id in params
+
+
+def overwrite_options(tree):
+    """Every way of switching on a third-party `overwrite_*` option (scipy.fft's overwrite_x, scipy.linalg's overwrite_a/_b,
+    numpy's overwrite_input) for an operand that is the caller's own array: a keyword argument with that name whose value is
+    not the constant False/None at a call whose operand is (rooted in) a parameter of the enclosing function; or the option name
+    as a string constant (a key put into a kwargs dict by hand) in a function that forwards **kwargs together with a parameter
+    as operand.  A temporary (z.data * ph) may be overwritten freely.  -> [(node, text, verdict)]: False = violation, None = the
+    operand's provenance is not syntactically evident (left to the alias analysis of C14)."""
+    out = []
+    parents = _parents(tree)
+
+    def enclosing(n):
+        while id(n) in parents:
+            n = parents[id(n)]
+            if isinstance(n, (ast.FunctionDef, ast.AsyncFunctionDef, ast.Lambda)):
+                return n
+        return None
+    for n in ast.walk(tree):
+        if isinstance(n, ast.keyword) and n.arg and n.arg.startswith("overwrite_"):
+            if isinstance(n.value, ast.Constant) and n.value.value in (False, None):
+                continue
+            call = parents.get(id(n))
+            fn = enclosing(n)
+            if not isinstance(call, ast.Call) or fn is None or not call.args:
+                out.append((n.value, f"{n.arg}={norm(n.value)}", None))
+            elif _rooted_in_param(call.args[0], _params_of(fn)):
+                out.append((n.value, f"{n.arg}={norm(n.value)} with operand {norm(call.args[0])[:40]}", False))
+            elif isinstance(call.args[0], ast.Name):
+                defs = [a_.value for a_ in ast.walk(fn) if isinstance(a_, ast.Assign) and len(a_.targets) == 1 and isinstance(a_.targets[0], ast.Name)
+                        and a_.targets[0].id == call.args[0].id]
+                if len(defs) == 1 and isinstance(defs[0], (ast.BinOp, ast.UnaryOp)):
+                    continue            # a named arithmetic temporary
+                out.append((n.value, f"{n.arg}={norm(n.value)} with operand {norm(call.args[0])[:40]}", None))
+        elif isinstance(n, ast.Constant) and isinstance(n.value, str) and n.value.startswith("overwrite_") and n.value.isidentifier():
+            fn = enclosing(n)
+            verdict = None
+            if fn is not None:
+                params = _params_of(fn)
+                for c in ast.walk(fn):
+                    if isinstance(c, ast.Call) and any(k.arg is None for k in c.keywords) and c.args and _rooted_in_param(c.args[0], params):
+                        verdict = False
+            out.append((n, f"the option name {n.value!r} is put into forwarded keyword arguments by hand", verdict))
+    return out
+
+
+def overwrite_report(ck, prog, rule, modules=None):
+    """The package never gives a third-party routine permission to destroy its operand: the operand is (a view of) the
+    caller's signal data at every FFT call site of the package."""
+    ctl = overwrite_options(ast.parse(OVERWRITE_CONTROL))
+    ok_ctl = len(ctl) == 3 and sorted(str(v) for _, _, v in ctl) == ["False", "False", "None"]
+    ck.run.ob(rule, "(embedded example)", "control: kwargs.setdefault('overwrite_x', True); f(x, overwrite_x=False); h(x, overwrite_a=flag); h(x * 2, overwrite_x=True); y = x * 2; h(y, overwrite_x=True); w = x.T; h(w, overwrite_x=True)",
+              "the rule fires on the hand-made option and the non-constant keyword on a parameter, leaves a named view undecided, and accepts overwrite_x=False and arithmetic temporaries", True if ok_ctl else None)
+    n_mod = 0
+    bad = []
+    for name, mi in sorted(prog.modules.items()):
+        if modules is not None and name not in modules:
+            continue
+        n_mod += 1
+        for node, text, verdict in overwrite_options(mi.tree):
+            bad.append((name, node, text, verdict))
+    for name, node, text, verdict in bad:
+        where = f"{name.replace('.', '/')}.py:{getattr(node, 'lineno', 0)}"
+        if verdict is None:
+            ck.unk(rule, where, text, "the operand is a temporary of the function, not the caller's data",
+                   "an overwrite_* option is switched on for an operand whose provenance is not syntactically evident")
+        else:
+            ck.same(rule, where, text, "no third-party routine is allowed to overwrite an operand that is the caller's data", False,
+                    found="an overwrite_* option is switched on (or can be, depending on a run-time value) for a parameter of the function", nontrivial=True)
+    if not bad:
+        ck.same(rule, "pulsarbat (all modules)", f"{n_mod} modules searched for overwrite_* options",
+                "no third-party routine is allowed to overwrite its operand (the operand is the caller's data)", True, nontrivial=True)
+    ck.run.floor(rule, "modules searched for overwrite_* options", n_mod, 15 if modules is None else len(modules))
+
+
+# ------------------------------------------------------------------------------------------------ process-wide hooks
+GLOBAL_HOOKS = {
+    "scipy.fft.register_backend": "registers a scipy.fft backend for the whole process: every scipy.fft call (also the package's direct ones) is routed through it",
+    "scipy.fft.set_global_backend": "replaces the scipy.fft backend for the whole process",
+    "scipy.fft.set_backend": "switches the scipy.fft backend (outside a with-block: for good)",
+    "numpy.seterr": "changes NumPy's floating-point error handling for the whole process",
+    "numpy.seterrcall": "changes NumPy's floating-point error handling for the whole process",
+    "dask.config.set": "changes Dask's configuration (scheduler, chunk sizes) for the whole process when not used as a context manager",
+}
+HOOK_CONTROL = '''
+import scipy.fft
+import numpy as np
+import dask
+
+
+class _B:
+    __ua_domain__ = "numpy.scipy.fft"
+
+
+scipy.fft.register_backend(_B)
+np.fft.fft = lambda x: x
+
+
+def f(x):
+    with dask.config.set(scheduler="threads"):
+        return x.compute()
+'''
+
+
+def global_hooks(tree, imports):
+    """Process-wide hooks installed by a module: calls of GLOBAL_HOOKS functions that are not the context expression of a
+    with-statement, and assignments to attributes of imported third-party modules (monkey-patching).  `imports` maps local
+    aliases to dotted names.  -> [(node, text)]"""
+    parents = _parents(tree)
+    third = {a: d for a, d in imports.items() if not d.startswith("pulsarbat")}
+
+    def dotted(e):
+        parts = []
+        while isinstance(e, ast.Attribute):
+            parts.append(e.attr)
+            e = e.value
+        if isinstance(e, ast.Name) and e.id in third:
+            return ".".join([third[e.id]] + parts[::-1])
+        return None
+    out = []
+    for n in ast.walk(tree):
+        if isinstance(n, ast.Call):
+            d = dotted(n.func)
+            if d in GLOBAL_HOOKS:
+                par = parents.get(id(n))
+                if isinstance(par, ast.withitem) and par.context_expr is n:
+                    continue        # scoped: undone when the block is left
+                out.append((n, f"{d}(...): {GLOBAL_HOOKS[d]}"))
+        elif isinstance(n, (ast.Assign, ast.AugAssign, ast.AnnAssign)):
+            tg = n.targets if isinstance(n, ast.Assign) else [n.target]
+            for t in tg:
+                if isinstance(t, ast.Attribute):
+                    d = dotted(t)
+                    if d is not None:
+                        out.append((n, f"assignment to {d}: replaces part of a third-party module for the whole process"))
+        elif isinstance(n, ast.ClassDef):
+            if any(isinstance(b, ast.Assign) and any(isinstance(t, ast.Name) and t.id == "__ua_domain__" for t in b.targets) for b in n.body):
+                out.append((n, f"class {n.name} declares __ua_domain__: a uarray backend that intercepts third-party calls once registered"))
+    return out
+
+
+def hooks_report(ck, prog, rule):
+    """The package installs no process-wide hook: what scipy.fft / numpy / astropy / dask compute for the package (and for the
+    user) is what their documentation says, which is what every API-table entry of the evaluator assumes."""
+    ctl_tree = ast.parse(HOOK_CONTROL)
+    ctl = global_hooks(ctl_tree, {"scipy": "scipy", "np": "numpy", "dask": "dask"})
+    ok_ctl = len(ctl) == 3
+    ck.run.ob(rule, "(embedded example)", "control: scipy.fft.register_backend(B); np.fft.fft = ...; class with __ua_domain__; with dask.config.set(...)",
+              "the hook rule fires on the registration, the monkey-patch and the backend class, not on the scoped with-block", True if ok_ctl else None)
+    n_mod, bad = 0, []
+    for name, mi in sorted(prog.modules.items()):
+        n_mod += 1
+        for node, text in global_hooks(mi.tree, mi.imports):
+            bad.append((name, node, text))
+    for name, node, text in bad:
+        ck.same(rule, f"{name.replace('.', '/')}.py:{getattr(node, 'lineno', 0)}", text[:140],
+                "no process-wide hook is installed into a third-party library (backends, monkey-patches, global configuration)", False,
+                found=text, nontrivial=True)
+    if not bad:
+        ck.same(rule, "pulsarbat (all modules)", f"{n_mod} modules searched for backend registrations, monkey-patches and global configuration calls",
+                "no process-wide hook is installed into a third-party library", True, nontrivial=True)
+    ck.run.floor(rule, "modules searched for process-wide hooks", n_mod, 15)
